@@ -170,3 +170,100 @@ Definition json_error_doc_ok (body : str) : bool :=
       end
   | None => false
   end.
+
+(** * General recogniser: one JSON value (RFC 8259), as a byte-wise pushdown automaton.
+    Strings go through the string automaton above (so escapes and UTF-8 are checked). *)
+
+Inductive nst := NMinus | NZero | NInt | NDot | NFrac | NExp | NExpSign | NExpDigits.
+Definition num_complete (n : nst) : bool :=
+  match n with NZero | NInt | NFrac | NExpDigits => true | _ => false end.
+Definition is_digit (b : N) : bool := (48 <=? b) && (b <=? 57).
+Definition num_step (n : nst) (b : N) : option nst :=
+  match n with
+  | NMinus => if b =? 48 then Some NZero else if is_digit b then Some NInt else None
+  | NZero => if b =? 46 then Some NDot else if (b =? 101) || (b =? 69) then Some NExp else None
+  | NInt => if is_digit b then Some NInt else if b =? 46 then Some NDot
+            else if (b =? 101) || (b =? 69) then Some NExp else None
+  | NDot => if is_digit b then Some NFrac else None
+  | NFrac => if is_digit b then Some NFrac else if (b =? 101) || (b =? 69) then Some NExp else None
+  | NExp => if is_digit b then Some NExpDigits else if (b =? 43) || (b =? 45) then Some NExpSign else None
+  | NExpSign => if is_digit b then Some NExpDigits else None
+  | NExpDigits => if is_digit b then Some NExpDigits else None
+  end.
+
+Inductive pst :=
+| PValue                          (* a value is due *)
+| PStr (j : jst) (key : bool)     (* inside a string (object key or value) *)
+| PNum (n : nst)
+| PLit (rest : str)               (* the rest of true / false / null *)
+| PAfter                          (* after a value *)
+| PObjFirst | PObjKey | PColon | PArrFirst.
+
+Definition json_ws (b : N) : bool := (b =? 32) || (b =? 9) || (b =? 10) || (b =? 13).
+
+(* stack: true = inside an object, false = inside an array *)
+Definition after_step (stk : list bool) (b : N) : option (pst * list bool) :=
+  if json_ws b then Some (PAfter, stk)
+  else match stk with
+       | [] => None
+       | true :: r => if b =? 44 then Some (PObjKey, stk) else if b =? 125 then Some (PAfter, r) else None
+       | false :: r => if b =? 44 then Some (PValue, stk) else if b =? 93 then Some (PAfter, r) else None
+       end.
+
+Definition value_step (stk : list bool) (b : N) : option (pst * list bool) :=
+  if b =? 34 then Some (PStr JBody false, stk)
+  else if b =? 123 then Some (PObjFirst, true :: stk)
+  else if b =? 91 then Some (PArrFirst, false :: stk)
+  else if b =? 45 then Some (PNum NMinus, stk)
+  else if b =? 48 then Some (PNum NZero, stk)
+  else if is_digit b then Some (PNum NInt, stk)
+  else if b =? 116 then Some (PLit [114;117;101], stk)          (* true *)
+  else if b =? 102 then Some (PLit [97;108;115;101], stk)       (* false *)
+  else if b =? 110 then Some (PLit [117;108;108], stk)          (* null *)
+  else None.
+
+Definition pstep (s : pst * list bool) (b : N) : option (pst * list bool) :=
+  let '(st, stk) := s in
+  match st with
+  | PValue => if json_ws b then Some (PValue, stk) else value_step stk b
+  | PStr j key =>
+      match jstep j b with
+      | JRej => None
+      | JEnd => Some (if key then PColon else PAfter, stk)
+      | j' => Some (PStr j' key, stk)
+      end
+  | PNum n =>
+      match num_step n b with
+      | Some n' => Some (PNum n', stk)
+      | None => if num_complete n then after_step stk b else None
+      end
+  | PLit rest =>
+      match rest with
+      | [] => None
+      | c :: r => if b =? c then Some (match r with [] => PAfter | _ => PLit r end, stk) else None
+      end
+  | PAfter => after_step stk b
+  | PObjFirst => if json_ws b then Some (PObjFirst, stk)
+                 else if b =? 34 then Some (PStr JBody true, stk)
+                 else if b =? 125 then match stk with _ :: r => Some (PAfter, r) | [] => None end
+                 else None
+  | PObjKey => if json_ws b then Some (PObjKey, stk) else if b =? 34 then Some (PStr JBody true, stk) else None
+  | PColon => if json_ws b then Some (PColon, stk) else if b =? 58 then Some (PValue, stk) else None
+  | PArrFirst => if json_ws b then Some (PArrFirst, stk)
+                 else if b =? 93 then match stk with _ :: r => Some (PAfter, r) | [] => None end
+                 else value_step stk b
+  end.
+
+Fixpoint prun (s : pst * list bool) (l : str) : option (pst * list bool) :=
+  match l with
+  | [] => Some s
+  | b :: r => match pstep s b with Some s' => prun s' r | None => None end
+  end.
+
+(* the whole body is exactly one JSON value (white space around it allowed) *)
+Definition json_doc_ok (body : str) : bool :=
+  match prun (PValue, []) body with
+  | Some (PAfter, []) => true
+  | Some (PNum n, []) => num_complete n
+  | _ => false
+  end.
